@@ -232,6 +232,14 @@ func runRIO(args []string) error {
 							}
 						}
 					}
+					// the mmap reader scans windows of 4096 bytes: let the marker of every record straddle the end of the first window
+					for _, off := range offs {
+						for d := 4093; d <= 4097; d++ {
+							if int(off)-d >= 0 {
+								froms = append(froms, int(off)-d)
+							}
+						}
+					}
 					froms = append(froms, len(data)-1, len(data), len(data)+1)
 				}
 				for _, o := range froms {
